@@ -248,7 +248,7 @@ impl ColumnarGrouper {
                 if let Some(zones) = zones_by_event_type.get(event_type) {
                     // OPTIMIZATION: Pre-extract all timestamps to avoid repeated accessor creation
                     // Create a vector of (timestamp, original_index) pairs
-                    let mut timestamped_indices: Vec<(u64, usize)> =
+                    let mut timestamped_indices: Vec<(i64, usize)> =
                         Vec::with_capacity(row_indices.len());
                     for (idx, row_index) in row_indices.iter().enumerate() {
                         let ts = self.get_timestamp(zones, row_index);
@@ -365,12 +365,11 @@ impl ColumnarGrouper {
     ///
     /// This is used for sorting rows within groups.
     /// Uses the configured time_field (default: "timestamp").
-    fn get_timestamp(&self, zones: &[CandidateZone], row_index: &RowIndex) -> u64 {
+    fn get_timestamp(&self, zones: &[CandidateZone], row_index: &RowIndex) -> i64 {
         if let Some(zone) = zones.get(row_index.zone_idx) {
             let accessor = PreparedAccessor::new(&zone.values);
             accessor
                 .get_i64_at(&self.time_field, row_index.row_idx)
-                .map(|ts| ts as u64)
                 .unwrap_or(0)
         } else {
             0
